@@ -425,7 +425,7 @@ PROPS["C10"] = {
 }
 
 PROPS["C09"] = {
-  "units": ["reqrep", "dealersend", "drivers"],
+  "units": ["reqrep", "dealersend", "drivers", "routersend"],
   "kani_quick": [], "kani_thorough": [],
   "claim": "Protocol-state part for REQ and REP only, proved on the verbatim async functions: a future can be dropped only where it returned Pending, i.e. at an await; "
            "before EVERY await of ReqSocket::send / recv / recv_multipart and RepSocket::recv / recv_multipart (the assertion is inserted mechanically at each `.await` of the extracted text) no write to the protocol state has happened yet, "
